@@ -731,7 +731,7 @@ func TestVerif_C02(t *testing.T) {
 	rec.Assume("binary collation; generated comparisons are type-consistent (int with int, string with string)")
 	rec.Assume("a backend returns rows without ORDER BY in storage order and ties of an ORDER BY in storage order; any other choice of MySQL is covered by the oracle's window rule, not by the workload")
 	rec.Assume("statements the proxy rejects with an error (at plan time or because a rewritten statement is refused by the backend) are counted, not violations")
-	rec.Assume("routing of WHERE conditions on the sharding key is only exercised with = and IN (range pruning is property C01)")
+	rec.Assume("conditions on the sharding key are one comparison / IN / BETWEEN of the key with literals, alone or under one NOT / OR / AND (c02_keys grid); deeper nesting is not generated")
 
 	suite, err := c02NewSuite()
 	if err != nil {
@@ -741,6 +741,11 @@ func TestVerif_C02(t *testing.T) {
 	m := c02NewMon(rec, suite)
 
 	if p := kit.ReplayPath(); p != "" {
+		var kc c02KeyCase
+		if err := kit.LoadReplay(p, &kc); err == nil && kc.Pred.Op != "" {
+			c02ReplayKey(rec, kc)
+			return
+		}
 		var c c02Case
 		if err := kit.LoadReplay(p, &c); err != nil {
 			rec.Inconclusive("replay file unreadable: " + err.Error())
@@ -754,6 +759,15 @@ func TestVerif_C02(t *testing.T) {
 	for i := range parsers {
 		parsers[i] = parser.New()
 	}
+
+	// Part 0: the grid of key predicates (all pruning forms x bound positions x combinators)
+	// on data with rows on and around every table boundary, for every rule family.
+	grid, err := c02RunKeyGrid(rec, suite, parsers)
+	if err != nil {
+		rec.Inconclusive("key-predicate grid cannot be built: " + err.Error())
+		return
+	}
+	grid.reportAll(rec)
 
 	// Part 1: enumeration of the feature space on the fixed suite; every 1-minimal failing
 	// atom set is a finding (listed or not).
@@ -845,6 +859,67 @@ func TestVerif_C02(t *testing.T) {
 			jobs = append(jobs, job{w: w, shape: sh, sql: sql})
 		}
 	}
+	// random key predicates on the same random worlds
+	type keyJob struct {
+		w    *c02World
+		pred c02KeyPred
+		sql  string
+	}
+	var keyJobs []keyJob
+	rk := kit.SubRand(kit.Seed(), "C02/random-keys")
+	perWorldKeys := kit.N(25, 20)
+	seenWorld := map[*c02World]bool{}
+	for _, j := range jobs {
+		if seenWorld[j.w] {
+			continue
+		}
+		seenWorld[j.w] = true
+		for k := 0; k < perWorldKeys; k++ {
+			p := c02RandomKeyPred(rk)
+			sql, ok := p.sqlAnyOrder(j.w.cfg, rk)
+			if !ok {
+				continue
+			}
+			keyJobs = append(keyJobs, keyJob{w: j.w, pred: p, sql: sql})
+		}
+	}
+	keyOuts := make([]c02Outcome, len(keyJobs))
+	c02Parallel(len(keyJobs), func(w, i int) {
+		keyOuts[i] = c02RunCase(keyJobs[i].w, keyJobs[i].sql, parsers[w])
+	})
+	for i, o := range keyOuts {
+		j := keyJobs[i]
+		cl := j.pred.class(j.w.cfg.family)
+		rec.Eval(1)
+		rec.Count("randomkeys."+o.status, 1)
+		if o.stmts >= 1 && o.stmts < len(j.w.cfg.shards) {
+			rec.Count("randomkeys.pruned_cases", 1)
+		}
+		if o.stmts >= 2 && o.status != "skipped" {
+			rec.Nontrivial("key:" + cl.sig(""))
+		}
+		if o.status == "skipped" {
+			rec.Set("randomkeys.last_skip", o.detail+" :: "+j.sql)
+		}
+		if o.status != "fail" {
+			continue
+		}
+		rec.Count("randomkeys.fail."+o.clause, 1)
+		mins := grid.minimalFrom(cl)
+		if len(mins) == 0 {
+			sig := "unreproduced|" + cl.sig(o.clause) + "|" + j.w.cfg.spec.String() + "|" + kit.Hash64(j.sql, fmt.Sprintf("%v", j.w.data))
+			rec.Violation(sig, fmt.Sprintf("%s on %s with random data: %s (the class does not fail on the fixed key grid)", j.sql, j.w.cfg.spec, o.detail),
+				c02KeyCase{Cfg: j.w.cfg.spec, Data: j.w.data, Pred: j.pred, SQL: j.sql, Sent: o.sent, Note: "fixed-grid miss"})
+			continue
+		}
+		for _, mc := range mins {
+			grid.report(rec, mc)
+		}
+	}
+	if rec.CounterValue("randomkeys.skipped")*10 > int64(len(keyJobs)) {
+		rec.Inconclusive(fmt.Sprintf("rig skipped %d of %d random key-predicate cases", rec.CounterValue("randomkeys.skipped"), len(keyJobs)))
+	}
+
 	outs := make([]c02Outcome, len(jobs))
 	c02Parallel(len(jobs), func(w, i int) {
 		outs[i] = c02RunCase(jobs[i].w, jobs[i].sql, parsers[w])
